@@ -49,12 +49,10 @@ TRUSTED = ['translate/gen_arith.py (tokeniser-level skeletons; operands are not 
            'the mapping function -> predicate in translate/record_skeletons.py / the `recorded` table is maintained by hand',
            'modelled, not verified: az::SaturatingAs, i32 `/` as Z.quot, u32 and usize `/` as Z.div, `as` between equal-width integers as wrap']
 PARTIAL = [
-    'unmodelled functions of the covered files (explicit list unmodelled_fns in coq/Model/Overflow.v): Line::extents, '
-    'OriginLinearEquation::with_angle (float / fixed trigonometry), Triangle::is_collapsed, Triangle::sorted_clockwise and the From/TryFrom '
-    'conversions (constant indices into fixed arrays), Index for Point/Size, Triangle::from_slice, ImageRaw::new_const (documented panics)',
-    'thick lines and joins: per-step theorems with inductive invariants (C08_next_all_total, C08_previous_all_total, '
-    'C08_increase_error_total, C08_decrease_error_total, C08_parallels_next_total) but no theorem for the whole ParallelsIterator / '
-    'ThickPoints / LineJoin::from_points loop (Line::extents unmodelled); covered by p_total',
+    'Triangle::is_collapsed: C08_is_collapsed_step_total assumes the inner corner of the join within +-131072 (the proved bound of a '
+    'join point is 25921801, which is not enough for the i32 dot product of check_side); covered by p_total',
+    'OriginLinearEquation::with_angle: only the integer part (rotate_90 of the scaled cosine / sine, |.| <= 1025) is modelled; the '
+    'trigonometry itself is an external call (micromath / fixed)',
     'no ok_* correspondence (skeleton tie + p_total only) for: circle/ellipse offset, EllipseQuadrant, increase/decrease_error, next_all / '
     'previous_all, ParallelsIterator::next, miter, text lines, ImageRaw draw/pixel, ContiguousPixels, Cropped (image and raw parts: C08_image, C08_raw)',
     'files outside translate/gen_arith.py FILES (arc, sector, polyline, scanline fills, styled iterators, mono font draw target, framebuffer) '
@@ -213,6 +211,10 @@ def cases(tier, rng):
         yield J('ok_tri_contains', *tv, *q)
         if m <= 1000:
             yield J('ok_tri_contains', *tv, rng.randrange(-m, m + 1), rng.randrange(-m, m + 1))
+        yield J('ok_index', rng.choice([0, 1, 2, 3, 2 ** 31, 2 ** 40]))
+        yield J('ok_from_slice', rng.randrange(0, 6))
+        cw_, ch_, cb_ = rng.randrange(0, 20), rng.randrange(0, 9), rng.choice([1, 8, 16, 24])
+        yield J('ok_new_const', cw_, ch_, cb_, max(0, (cw_ * cb_ + 7) // 8 * ch_ + rng.choice([0, 0, 1, -1, 5])))
         # whole thick-line walk (ParallelsIterator, Line::extents, ThickPoints, LineJoin::from_points through verif_hooks):
         # moderate widths (the walk has ~3w steps), vertices at display scale, near 2^15 (i32 products of the join) and at the i32 edge
         wq = rng.choice([0, 1, 2, 3, 5, 8, 20, 40, 128])
